@@ -83,8 +83,11 @@ MUTATIONS = [
      "        if deep:\n            deep_items = self.base_module.get_params().items()",
      "        if not deep:\n            deep_items = self.base_module.get_params().items()"),
     ("DualVigilanceART.__init__: base_module stored after BaseART.__init__", "reordered effect", Du,
-     "        self.base_module = base_module\n        super().__init__(params)\n",
-     "        super().__init__(params)\n        self.base_module = base_module\n"),
+     "        self.base_module = base_module\n        # BaseART.__init__ resets",
+     "        # BaseART.__init__ resets"),
+    ("DualVigilanceART.__init__: the saved counter is also read after the restore (pair no longer droppable)", "added effect", Du,
+     "        base_module.weight_sample_counter_ = counter\n",
+     "        base_module.weight_sample_counter_ = counter\n        self.rho_lower_bound = len(counter)\n"),
     # ---- TopoART
     ("TopoART.validate_params: beta >= beta_lower made strict", "bound made strict", To,
      'assert params["beta"] >= params["beta_lower"]', 'assert params["beta"] > params["beta_lower"]'),
